@@ -243,6 +243,18 @@ class Gen(object):
             elif k < 0.8:
                 w = min(remaining, r.choice([4, 8, 3, 12, 7]))
                 t = Type("bcd")
+            elif k < 0.84 and [b for b in getattr(self, "bits_types", []) if b.static_bits <= remaining and b.static_bits <= 32]:
+                # a `bits` type inside this `bits` (at whatever bit offset we are at): nested bit blocks
+                bt = r.choice([b for b in self.bits_types if b.static_bits <= remaining and b.static_bits <= 32])
+                w, t = bt.static_bits, Type("struct", ref=bt)
+            elif k < 0.87 and remaining >= 4:
+                # an array of bit-sized elements inside the `bits`
+                eb = r.choice([1, 2, 3, 4, 4, 5, 8])
+                cnt = r.randint(1, max(1, min(5, remaining // eb)))
+                if eb * cnt > remaining:
+                    pos += 1
+                    continue
+                w, t = eb * cnt, Type("array", elem=Type(r.choice(["uint", "uint", "int"]), bits=eb), count=num(cnt))
             elif k < 0.93 and enums:
                 e = r.choice(enums)
                 w = min(remaining, e.max_bits(), r.choice([e.need_bits, e.need_bits + 1, 4, 8]))
@@ -747,8 +759,11 @@ class Gen(object):
             m.enums.append(self.gen_enum())
         types = []
         if self.p["allow_bits"]:
-            for _ in range(r.randint(0, 2)):
-                types.append(self.gen_bits_type())
+            self.bits_types = []
+            for _ in range(r.randint(0, 3)):
+                bt = self.gen_bits_type()
+                types.append(bt)
+                self.bits_types.append(bt)
         n = r.randint(2, self.p["max_structs"])
         for i in range(n):
             types.append(self.gen_struct(types, leaf=(i == 0)))
